@@ -4,8 +4,9 @@ import os
 
 LEVEL_NOTE = ("Trusted: Coq 8.16.1 kernel (coqc, full .vo; coqchk in thorough), extraction (ExtrOcamlBasic, "
               "ExtrOcamlNativeString), driver/main.ml binary64 NumOps record and wire syntax, harness generators/"
-              "comparison, coq/Spec/*.v as transcription of the rules; IEEE comparisons assumed to satisfy NumLaws "
-              "(proved for the exact-rational instance NumQ). Axioms per theorem: see evidence (Print Assumptions).")
+              "comparison, xlate/pyxlate.py (source-to-Gallina translator for decision and arithmetic expressions and 14 whole function bodies, re-run and "
+              "re-proved equal to the model on every run), coq/Spec/*.v as transcription of the rules; that binary64 satisfies the number laws is proved "
+              "for Coq's primitive floats (NumF) and for exact rationals (NumQ). Axioms per theorem: see evidence (Print Assumptions).")
 
 CHECKS = {
     "C01": ("proof", "Coq proof (resolve_valid, validb_spec, rename_demes_valid) + verified checker validb run on every returned graph + correspondence",
@@ -13,7 +14,8 @@ CHECKS = {
             "(Spec/Valid.v, every clause of the property, migration clauses quantified over times); rename_demes preserves Valid for any map; "
             "the boolean validator validb is proved equivalent to Valid and is run (extracted) on every graph any entry point of the "
             "implementation returns (fromdict, loads, Builder, from_ms, in_generations, rename_demes), next to an independent Python validator. "
-            "in_generations on binary64 is a known finding (float quotient)."),
+            "in_generations on binary64 is a known finding (float quotient). resolve_valid_F: the same for binary64 itself (Coq primitive floats), "
+            "with no arithmetic hypothesis (SumOK proved for NumF)."),
     "C02": ("proof", "Coq theorems for each resolution rule at builder and at document level (incl. key-order invariance of fromdict) + exact correspondence + metamorphic spelling/route/sharing comparison",
             "Each resolution rule of the specification is an equation proved about Model/Resolve.v (precedence of defaults, inferred start time, "
             "proportions, sizes, size function, symmetric expansion, per-pair bounds, stable pulse sort); the model is compared bit-exactly with "
@@ -23,15 +25,19 @@ CHECKS = {
             "resolve_valid: any accepted document yields a graph satisfying every rule, so rule-breaking resolutions are rejected; "
             "explicit_accept_iff: a fully explicit document is accepted iff its content is valid (both directions). Accept/reject of the "
             "implementation is compared with the model on rule-targeted boundary mutants and structural mutants, and with an independent "
-            "Python validator on explicit mutants in both directions."),
+            "Python validator on explicit mutants in both directions. The bodies of the validators and of the Epoch / AsymmetricMigration post-init checks are "
+            "translated from the current source on every run and proved equal to the checks the model's builders run (make_epoch_post_init, add_asym_post_init); "
+            "explicit_accept_iff_F: the iff for binary64 itself."),
     "C04": ("proof", "Coq proof of the data-level round trip (dump_pre / load_post) + text round trips on the implementation with adversarial strings and numbers",
             "roundtrip_resolved and the stringify/unstringify inverses are theorems about Model/IO.v for every valid graph, both formats; the text "
             "layer (ruamel.yaml, json) is external and its print/parse law is tested through dump/dumps/dump_all and load/loads/load_all with "
-            "YAML-significant strings, Unicode, awkward numbers, all target kinds and multi-document streams of 0..5 graphs, compared exactly."),
-    "C05": ("proof", "exact correspondence of Model/Simplify.v with asdict_simplified + re-resolution on the implementation (Coq proof of simplify_resolves in progress)",
+            "YAML-significant strings, Unicode, awkward numbers, all target kinds and multi-document streams of 0..5 graphs, compared exactly. "
+            "roundtrip_simplified (+ _F for binary64 itself): dumping the simplified form and loading it back gives a value-equal graph."),
+    "C05": ("proof", "Coq proof (simplify_total, simplify_migrations_preserve, simplify_resolves; and for binary64 itself simplify_resolves_F with SumLaws proved for NumF) + exact correspondence of Model/Simplify.v with asdict_simplified + re-resolution on the implementation",
             "Model/Simplify.v (field omission and the clique search on explicit fuel) is compared exactly with Graph.asdict_simplified on generated "
             "graphs and clique-layout families; the simplified dictionary is re-resolved by the implementation and compared with the original "
-            "(migrations as a multiset). Theorems currently in coq/Props/C05.v are listed in the evidence."),
+            "(migrations as a multiset). For every valid graph simplification never fails, preserves the migration multiset, and the simplified "
+            "dictionary resolves to a value-equal graph (migrations up to order)."),
     "C06": ("proof", "Coq proof (asdict_fixed) + schema / fixed-point / aliasing checks on the implementation",
             "asdict is a literal dictionary with every field (explicitness is definitional); asdict_fixed: for every Valid g resolving asdict g "
             "succeeds, infers nothing and returns the same dictionary. Object identity (mutating the returned dictionary) and numeric/string "
@@ -39,7 +45,9 @@ CHECKS = {
     "C10": ("proof", "Coq proof (reflexive, symmetric, sound, invariant under the allowed re-orderings) + correspondence + perturbation pairs",
             "close_graph (model of assert_close not raising) is proved reflexive, symmetric, sound (a positive answer implies pairwise closeness of "
             "every semantic attribute incl. the number of epochs) and invariant under text fields, deme order, migration order and ancestor order; "
-            "isclose vs assert_close agreement and sensitivity to single-attribute perturbations are checked on the implementation."),
+            "isclose vs assert_close agreement and sensitivity to single-attribute perturbations are checked on the implementation, also on graphs derived by "
+            "rename_demes / in_generations from graphs compared before. The bodies of Epoch.assert_close and AsymmetricMigration.assert_close are translated from the "
+            "current source on every run and proved equal to close_epoch / close_mig."),
     "C11": ("proof", "Coq proof (every time divided, frame unchanged, idempotent, result valid whenever the division is order-preserving on the graph's times) + correspondence; the binary64 cases where division is not order-preserving are known findings",
             "in_generations is proved to divide every time by the generation time and change nothing else, and to be idempotent given x/1 == x; "
             "receiver-unchanged and no shared state are checked on the implementation; the result can be invalid on binary64 when the quotient "
@@ -48,12 +56,13 @@ CHECKS = {
     "C12": ("proof", "Coq proof (end times, partition, pointwise agreement, row sums) + exact correspondence + pointwise check on the implementation",
             "For every graph satisfying MigsOK (implied by Valid): end times strictly decrease to 0, the intervals partition [0, inf), the matrix of the "
             "interval containing t holds exactly the rate of the migration in force at t (0.0 when none), no row exceeds one beyond the tolerance."),
-    "C13": ("proof", "Coq proof about a hand-written model of Deme.size_at + bit-exact correspondence of the extracted model with the implementation",
+    "C13": ("proof", "Coq proof about a model of Deme.size_at that is re-derived from the source on every run (whole-function translation proved equal to the hand-written model) + bit-exact correspondence of the extracted model with the implementation",
             "Zero outside the lifetime (start exclusive, end inclusive), end size at every epoch end, unique owner epoch inside, value at infinity, "
             "the three interpolation formulas; between-ness for linear epochs in exact rational arithmetic and for all three size functions (exponential included, with the "
             "exact closed form and its monotonicity) in exact real arithmetic (NumR instance over the standard library's Reals; its real-number and classical axioms are listed in the evidence). "
-            "The arithmetic expressions of size_at are translated from the current source and tied to the model on every run. Between-ness under "
-            "binary64 rounding is checked on the implementation's answers."),
+            "The whole body of size_at is translated from the current source and proved equal to the model on every run. For binary64 the between-ness "
+            "clause is refuted in the last place inside Coq (weight rounding to 1 next to an epoch end; known finding F24); the check evaluates the clause exactly "
+            "and reports deviations within a relative 1e-9 as that finding."),
     "C14": ("proof", "Coq proof (predecessors, successors, transpose, four-way classification) + correspondence",
             "predecessors/successors are proved to be exactly the ancestor lists and their transpose with one entry per deme; the event lists are "
             "proved to be the filters of the deme list by four mutually exclusive predicates, each split grouping all split-children of one parent."),
@@ -76,7 +85,8 @@ CHECKS = {
             "Generated command lines over all supported options (time coincidences, shuffled order, ignored options) are converted by the implementation; the "
             "returned graph is compared with the ms semantics of the command (sizes, rates, lineage movements), validated, and compared exactly with the model "
             "of build_graph (whose result is proved Valid); ignored options, optional names and the order of commuting same-time options are checked. "
-            "Known findings F8, F9 are reported as such."),
+            "Known findings F8, F9, F21 are reported as such. Coq: the interpreter refines the ms semantics for population count, emptied populations, the migration "
+            "matrix in force (end to end: from_ms_rates) and, new, the growth rate in force on every population (run_groups_growth_refine; its arithmetic premise proved for NumQ and binary64)."),
     "C09": ("translation_validation", "graph -> to_ms -> from_ms compared semantically with the original (coq/Spec/SemEquiv.v) + Coq theorems: round trip of migration rates (composition of the to_ms and from_ms theorems), fixed-point rendering + option print/parse on the implementation",
             "The graph returned by from_ms(to_ms(g, N0), N0, names) is compared with g in generations by the extracted semantic comparer with a tolerance "
             "derived from the ten-decimal rendering of negative growth rates; every kind of option record with awkward finite values is printed, parsed back by "
